@@ -1,5 +1,5 @@
 /-
-  C02 — `Find_Root` (Ridder's method), src/Numerics.cpp §2, as coded after commits 0ee7d00
+  C02 — `Find_Root` (Ridder's method), src/Numerics.cpp §2, as coded after commits e02ed3d (Ridders' formula on function values scaled by a power of two, midpoint fallback), 0ee7d00
   (the loop terminates on the width of the re-bracketed interval) and 008fb03 (the new iterate is
   clamped into the current bracket), with the two-argument `Sign(x,y)` of
   src/Special_Functions.cpp.  Exact rationals, core-only.
@@ -42,9 +42,29 @@ structure Res where
   heads : List Head     -- state at the head of every iteration executed
   deriving Repr
 
-/-- `x4 = x3 + (x3 - x1) * Sign(f1 - f2) * f3 / sqrt(f3 * f3 - f1 * f2)` -/
+/-- `std::frexp(m, &e)` for `m ≥ 0`: the exponent `e` with `m = frac · 2^e`, `frac ∈ [1/2, 1)`; `0` for `m = 0`.
+    (`⌊log2 m⌋ + 1`, computed from the bit lengths of numerator and denominator.) -/
+def frexpExp (m : Rat) : Int :=
+  if m ≤ 0 then 0 else
+  let k : Int := (Nat.log2 m.num.toNat : Int) - (Nat.log2 m.den : Int)
+  if pow2 k ≤ m then k + 1 else k
+
+/-- the exact power of two by which the three function values are multiplied (`std::ldexp(f, -exponent)`),
+    `exponent` from `frexp(max(|f3|, max(|f1|, |f2|)))` -/
+def ridderScale (f1 f2 f3 : Rat) : Rat :=
+  pow2 (-(frexpExp (rmax (rabs f3) (rmax (rabs f1) (rabs f2)))))
+
+/-- the new point (commit e02ed3d): Ridders' formula evaluated on the scaled values
+    `g_i = ldexp(f_i, -exponent)`, `s = sqrt(g3*g3 - g1*g2)`,
+    `x4 = (s > 0) ? x3 + (x3 - x1) * Sign(g1 - g2) * g3 / s : x3`.
+    `rnd` is applied where the C++ rounds the result of sqrt and division. -/
 def ridderX4 (sq rnd : Rat → Rat) (x1 f1 f2 x3 f3 : Rat) : Rat :=
-  rnd (x3 + (x3 - x1) * ((sign1 (f1 - f2) : Int) : Rat) * f3 / sq (f3 * f3 - f1 * f2))
+  let c := ridderScale f1 f2 f3
+  let g1 := f1 * c
+  let g2 := f2 * c
+  let g3 := f3 * c
+  let s := sq (g3 * g3 - g1 * g2)
+  if s > 0 then rnd (x3 + (x3 - x1) * ((sign1 (g1 - g2) : Int) : Rat) * g3 / s) else x3
 
 /-- `if(x4 < std::min(x1,x2)) x4 = std::min(x1,x2); else if(x4 > std::max(x1,x2)) x4 = std::max(x1,x2);` -/
 def clampX4 (x1 x2 x4 : Rat) : Rat :=
